@@ -82,24 +82,24 @@ func comps(extra map[string]string) map[string]string {
 
 var props = map[string]propCfg{
 	"C18": {World: "conc", QuickRuns: 2500, ThoroughRuns: 300000, QuickRace: 500, ThoroughRace: 50000, Instrument: true,
-		Rule:         "one run = one shared value (parsed from reference bytes by one of the 38 entry points, or built by a signing constructor) read by 2..4 tasks, each executing 1..4 scripted read-only calls (every exported argument-free method found by reflection, Equals/Equal against a private twin, full recursive observation, package-level size lookups, parsing the same bytes again) while a scripted schedule of 0..6 preemptions hands control from task to task at yield points inserted before every statement of the library (text splice into a scratch copy; about 4.5k sites). Three oracles per run: result equality with solo execution on a private instance; deep memory snapshot (to capacity) of the shared value and of every package-level variable before/after; and, in a -race build of the same scripts, the race detector with a hand-over it cannot see. Non-trivial = at least one preemption happened; distinct = distinct run fingerprints, which include a hash of the executed (yield ordinal, from-task, to-task, site) switch sequence.",
+		Rule:         "one run = one shared value (parsed from reference bytes by one of the 38 entry points, or built by a signing constructor) read by 2..4 tasks, each executing 1..4 scripted read-only calls (every exported argument-free method found by reflection, read-only methods with synthesised simple arguments, Equals/Equal against a private twin and against the value itself, full recursive observation, package-level size lookups, parsing the same bytes again, handing the value to the library functions that take one) while a scripted schedule of 0..6 preemptions hands control from task to task at yield points inserted before every statement of the library (text splice into a scratch copy; about 4.5k sites). Oracles per run: result equality with solo execution on a private instance (a call whose result differs between three solo executions is not judged by it); the same call repeated on fresh instances must execute the same number of statements from the second time on (trace); deep memory snapshot (to capacity) of the shared value and of every package-level variable before/after; and, in a -race build of the same scripts, the race detector with a hand-over it cannot see. Non-trivial = at least one preemption happened; distinct = distinct run fingerprints, which include a hash of the executed (yield ordinal, from-task, to-task, site) switch sequence.",
 		Assumptions:  []string{"dependencies (go-i2p/crypto, logger, oops, stdlib) are not instrumented and run atomically between yields", "statement granularity is the finest interleaving produced; the snapshot and race oracles do not need the bad interleaving to occur", "the norace hand-over relies on amd64 TSO and on the compiler not moving memory operations across a non-inlined call", "objects owned by dependencies (the logger behind each package's log variable) are compared by pointer identity only"},
-		Components:   comps(map[string]string{"scheduler": "simulated: real goroutines, one runnable at a time, hand-over only at inserted yield points in scripted order (spin on a plain word in //go:norace functions)", "yield points": "go/parser-located text splice into the scratch copy of /repo made by the check; the repository's own suite passes on the instrumented copy", "race detector": "Go's ThreadSanitizer runtime used as an in-simulation oracle over the controlled schedule", "clock": "real clock; every expiry in the generated values is kept decades away from it so that time-dependent accessors are constant (a synctest bubble cannot be used here: a detector report fails the bubble and aborts the run)"}),
+		Components:   comps(map[string]string{"scheduler": "simulated: real goroutines, one runnable at a time, hand-over only at inserted yield points in scripted order (spin on a plain word in //go:norace functions)", "yield points": "go/parser-located text splice into the scratch copy of /repo made by the check; the repository's own suite passes on the instrumented copy", "race detector": "Go's ThreadSanitizer runtime used as an in-simulation oracle over the controlled schedule", "clock": "simulated: time.Now / time.Since / time.Until of the library are replaced in the scratch copy by a frozen instant (a synctest bubble cannot be used here: a detector report fails the bubble and aborts the run)", "locks": "real sync.Mutex / RWMutex / Once; every Lock/Unlock of the library is bracketed in the scratch copy and the scheduler never parks a task that holds one", "sync.Pool": "simulated: replaced in the scratch copy by a deterministic LIFO pool (no GC victim cache, no per-P shards, no random drop in race builds)"}),
 		TimeoutQuick: 8 * time.Minute, TimeoutThoro: 150 * time.Minute},
 	"C16": {World: "els", QuickRuns: 4000, ThoroughRuns: 500000,
-		Rule:         "one run = 2..16 operations between a publisher, a floodfill store and 3 clients: encrypt a reference-built LeaseSet2 (shapes, key forms and cookies drawn per run) to a client's X25519 key under a scripted entropy stream (optionally faulted: short reads, stream restart = VM clone, all-zero / all-0xFF output, reader error during key generation), corrupt a stored ciphertext (one bit/byte in ephemeral key, nonce, body or tag), truncate/extend it, fetch and open it with the right or a wrong client's key (all accepted key forms), in the thorough tier flip one bit at every byte position of a ciphertext; and blind a destination on two nodes, each in its own synctest bubble with its own instant (either side of UTC midnight, seconds to days of skew) and fixed time zone (UTC-12..UTC+14). Non-trivial = at least one fault / corruption / mis-delivery / node boot fired; distinct = distinct run fingerprints.",
+		Rule:         "one run = 2..16 operations between a publisher, a floodfill store and 3 clients: encrypt a LeaseSet2 parsed from reference bytes or built by the signing constructor (shapes, key forms and cookies drawn per run; one in 25 padded with options to the largest size an EncryptedLeaseSet can carry, 65535-60 bytes, or just below / above) to a client's X25519 key under a scripted entropy stream (optionally faulted: short reads, stream restart = VM clone, all-zero / all-0xFF output, reader error during key generation), corrupt a stored ciphertext (one bit/byte in ephemeral key, nonce, body or tag), truncate/extend it, fetch and open it with the right or a wrong client's key (all accepted key forms), in the thorough tier flip one bit at every byte position of a ciphertext; and blind a destination on two nodes, each in its own synctest bubble with its own instant (either side of UTC midnight, seconds to days of skew) and fixed time zone (UTC-12..UTC+14). Non-trivial = at least one fault / corruption / mis-delivery / node boot fired; distinct = distinct run fingerprints.",
 		Assumptions:  []string{"kdf.DeriveBlindingFactor (dependency) is the derived factor the property speaks of; the UTC calendar day is computed independently of the time package", "reader errors are injected only on the read that goes through an io.Reader argument (ephemeral key generation): crypto/rand.Read aborts the process when a replaced Reader fails", "a ciphertext shorter than 61 bytes cannot be wrapped in an EncryptedLeaseSet at all and is counted as a probe"},
 		Components:   comps(map[string]string{"entropy": "simulated: crypto/rand.Reader wrapper over the per-run ChaCha8 stream with fault injection", "floodfill store": "simulated: in-memory store with bit rot, truncation, extension, mis-delivery", "clocks": "simulated: one synctest bubble per node boot, per-node time zone", "X25519 / HKDF / ChaCha20-Poly1305 / blinding KDF": "real code (dependencies)"}),
 		TimeoutQuick: 5 * time.Minute, TimeoutThoro: 150 * time.Minute},
 	"C05": {World: "auth", QuickRuns: 8000, ThoroughRuns: 1000000,
-		Rule:         "one run = one traffic history: 1..40 messages (RouterInfo, LeaseSet, LeaseSet2, MetaLeaseSet, EncryptedLeaseSet, bare OfflineSignature) of up to 8 honest publisher identities of every verifiable signature type, built by the reference encoder and signed with Go's standard crypto, delivered to a floodfill actor (library: parse + Verify) through a transport that records all traffic and applies 0..3 scripted faults per message: bit flips and byte rewrites placed by the field map, junk inside a mapping's declared size, bytes after the signature, signature swap (random / zero / another message's), key substitution, offline-block forgery (random / zero offline signature, attacker-owned transient key), offline-block transplant from a Byzantine identity, store-type confusion, replay. Oracle: library accepts => the reference verifier accepts the raw delivered bytes. Non-trivial = at least one fault fired; distinct = distinct run fingerprints.",
+		Rule:         "one run = one traffic history: 1..40 messages (RouterInfo, LeaseSet, LeaseSet2, MetaLeaseSet, EncryptedLeaseSet, bare OfflineSignature) of up to 8 honest publisher identities of every verifiable signature type, built by the reference encoder and signed with Go's standard crypto, delivered to a floodfill actor (library: parse + Verify) through a transport that records all traffic and applies 0..3 scripted faults per message: bit flips and byte rewrites placed by the field map, junk inside a mapping's declared size, bytes after the signature, signature swap (random / zero / another message's), key substitution, offline-block forgery (random / zero offline signature, attacker-owned transient key), offline-block transplant from a Byzantine identity, a delegate stretching its own delegation, store-type confusion, certificate / peer slack, element smuggling and swapping, whole smuggled mapping pairs, type confusion, flag downgrade, revocation-key forgery, replay; for half of the tampered messages the floodfill has verified the honest original first; every message that library and reference rejected is delivered again at the end of the run, after a pause on the simulated clock (0 s .. 25 h) and, in 1 run of 30, after 40..1100 other honest stores have been verified. Oracle: library accepts => the reference verifier accepts the raw delivered bytes. Non-trivial = at least one fault fired; distinct = distinct run fingerprints.",
 		Assumptions:  []string{"soundness direction only: 'reference accepts, library rejects' is not judged here (C06/C02)", "the reference verifier states exactly three facts: which key (right-justified in the 384-byte block, or the blinded key), which bytes (consumed minus trailing signature, with store-type prefix 3/5/7), and the offline chain; for signature type 8 it accepts Ed25519ph and pure Ed25519 (the question is whose key, not which variant)", "honest messages carry no fault; the evidence reports how often library and reference agree on them"},
-		Components:   comps(map[string]string{"publishers": "harness actors; honest messages come from the reference encoder + Go standard crypto, not from the library's constructors", "transport / adversary": "simulated: records traffic, tampers in flight", "floodfill": "harness actor calling the real Read*/Verify*", "clock": "synctest bubble (fixed instant)"}),
+		Components:   comps(map[string]string{"publishers": "harness actors; honest messages come from the reference encoder + Go standard crypto, not from the library's constructors", "transport / adversary": "simulated: records traffic, tampers in flight", "floodfill": "harness actor calling the real Read*/Verify*", "clock": "simulated: synctest bubble; advanced by the scripted pause before the late re-delivery"}),
 		TimeoutQuick: 5 * time.Minute, TimeoutThoro: 150 * time.Minute},
 	"C06": {World: "auth", QuickRuns: 6000, ThoroughRuns: 800000,
-		Rule:         "one run = 1..40 publications through the library's own signing constructors (NewRouterInfo, NewLeaseSet, NewLeaseSet2, NewEncryptedLeaseSet, CreateOfflineSignature) with the private key matching the contained identity and scripted admissible contents (options incl. empty values, one-character keys, 255-byte strings; 0..255 addresses; 0..16 leases; flag combinations; with/without offline block; every signing type the constructor takes), fault-free transport. Obligations per publication: constructed value verifies; its serialisation parses completely; the parsed value verifies (also when followed by another frame); the reference verifier accepts the same bytes. Non-trivial = at least one constructor call; distinct = distinct run fingerprints.",
+		Rule:         "one run = 1..40 publications through the library's own signing constructors (NewRouterInfo, NewLeaseSet, NewLeaseSet2, NewEncryptedLeaseSet, CreateOfflineSignature) with the private key matching the contained identity and scripted admissible contents (options incl. empty values, one-character keys, 255-byte strings; 0..255 addresses; 0..16 leases; flag combinations; with/without offline block; every signing type the constructor takes), fault-free transport. Obligations per publication: constructed value verifies (in 1 of 3 publications after every read-only accessor has been called on it); it serialises twice to the same bytes; the serialisation parses completely; the parsed value verifies (also when followed by another frame); the transport holds the very slice Bytes() returned and the publisher holds the value for 0..5 further publications: at delivery the slice is unchanged and still verifies, the value still verifies and serialises to bytes that verify. Non-trivial = at least one constructor call; distinct = distinct run fingerprints.",
 		Assumptions:  []string{"a constructor that returns an error imposes no obligation (counted as a probe)", "entropy for DSA/ECDSA/Ed25519ph comes from the run's pinned source (cryptotest.SetGlobalRandom)"},
-		Components:   comps(map[string]string{"publishers": "harness actors calling the real signing constructors", "transport": "simulated, fault-free configuration of the C05 world", "floodfill": "harness actor calling the real Read*/Verify*", "entropy": "simulated: testing/cryptotest global source seeded per run"}),
+		Components:   comps(map[string]string{"publishers": "harness actors calling the real signing constructors", "transport": "simulated, fault-free configuration of the C05 world; delivery delayed past later publications", "floodfill": "harness actor calling the real Read*/Verify*", "entropy": "simulated: testing/cryptotest global source seeded per run"}),
 		TimeoutQuick: 5 * time.Minute, TimeoutThoro: 150 * time.Minute},
 	"C08": {World: "buf", QuickRuns: 8000, ThoroughRuns: 1000000,
 		Rule:         "one run = one history of 3..25 operations over a pool of 2..4 transport-owned 4 KiB receive buffers: Recv (a reference-encoded frame of one of the 21 entry points for the structures C08 lists is written into a buffer, possibly at a non-zero offset and followed by the next packet, parsed, and the value kept), Scribble (a field of the frame chosen from the reference field map, or the whole buffer, is overwritten with zeros / 0xFF / inverted / PRNG bytes), Recycle (Recv into a buffer that already holds a frame), ScribbleReturned (overwrite the slices handed out by the accessors documented to return copies). After every operation every live value's observation vector (all exported argument-free accessors, recursively) must equal the one captured right after its parse. Non-trivial = at least one scribble/recycle fired; distinct = distinct run fingerprints.",
@@ -108,12 +108,12 @@ var props = map[string]propCfg{
 		TimeoutQuick: 5 * time.Minute, TimeoutThoro: 150 * time.Minute},
 	"C03": {World: "stream", QuickRuns: 8000, ThoroughRuns: 300000,
 		Rule:         "one run = one simulated connection: 1..12 reference-encoded frames for randomly chosen remainder-returning entry points (37 of them), delivered as a byte stream cut at scripted offsets (biased by the reference field map to length/count fields and extent-1/extent/extent+1), at a fixed MSS down to 1 byte, coalesced, or reset at a byte offset; or as datagrams followed by 0..64 bytes of padding of six kinds, some truncated. The receiver frames the stream with the library's own remainders only. Non-trivial = at least one cut, reset, padding or truncation fired; distinct = distinct run fingerprints (SHA-256 over every parse attempt's (frame, buffered bytes, success, remainder length)).",
-		Assumptions:  []string{"only frames the parser accepts when given exactly the reference encoding are sent (C03 quantifies over accepted inputs); rejected reference frames are counted as probes", "success per entry point: err == nil; ReadInteger: result of the requested length; ReadMapping/NewMapping: no error other than the documented 'data exists beyond length of mapping' warning", "Certificate.RawBytes/ExcessBytes and KeyCertificate.Data are documented to expose bytes beyond the declared length and are left out of the 'same value' comparison; RouterInfo.String is left out for cost (quadratic in the size of the structure)", "a reference frame the parser refuses alone is parsed again followed by continuations; whatever is accepted then must consume exactly the frame's extent", "every accepted frame is also parsed from a slice with spare capacity holding a plausible continuation", "the structure extent is the reference encoder's length"},
+		Assumptions:  []string{"only frames the parser accepts when given exactly the reference encoding are sent (C03 quantifies over accepted inputs); rejected reference frames are counted as probes", "success per entry point: err == nil; ReadInteger: result of the requested length; ReadMapping/NewMapping: no error other than the documented 'data exists beyond length of mapping' warning", "Certificate.RawBytes/ExcessBytes and KeyCertificate.Data are documented to expose bytes beyond the declared length and are left out of the 'same value' comparison; RouterInfo.String is left out for cost (quadratic in the size of the structure)", "a reference frame the parser refuses alone is parsed again followed by continuations; whatever is accepted then must consume exactly the frame's extent, and a parser that then consumes exactly the frame has itself declared it complete: refusing it alone is reported (the outcome changes when bytes are appended)", "every accepted frame is also parsed from a slice with spare capacity holding a plausible continuation", "the structure extent is the reference encoder's length"},
 		Components:   comps(map[string]string{"transport": "simulated: in-process byte stream / datagram queue with segmentation, coalescing, reset, padding, truncation (stub for NTCP2/SSU2, which are not in this repository)", "receiver": "harness code: append to buffer, call the expected Read* function, keep the remainder", "clock": "synctest bubble (fixed instant) so that time-dependent accessors in the observation vector are deterministic"}),
 		TimeoutQuick: 5 * time.Minute, TimeoutThoro: 150 * time.Minute},
 	"C15": {World: "clock", QuickRuns: 20000, ThoroughRuns: 5000000,
-		Rule:         "one run = one seeded script: a lease table of 1..24 entries (Lease, Lease2, OfflineSignature, LeaseSet2, EncryptedLeaseSet, MetaLeaseSet + entries, LeaseSets of 1..16 leases, Date conversions; parsed from reference bytes and built by constructors) evaluated at 2..12 boots, each a fresh synctest bubble slept to a scripted absolute instant (relative to an entry's exact expiry, at the 2038/2106 edges, or uniform in 2000..2262; consecutive boots may go backwards). A run is non-trivial if at least one boot happened; distinct = distinct run fingerprints (SHA-256 over every (entry, boot) observation).",
-		Assumptions:  []string{"testing/synctest's fake clock is the only clock the library reads (inventory in DESIGN.md §1)", "the bubble clock covers 2000-01-01 .. 2262-04-01 only: expiries before 2000-01-02 are seen from the expired side only, millisecond dates past 2262 from the not-expired side only", "inside the ±24 h band around an expiry IsExpired is not judged (the property promises nothing there)"},
+		Rule:         "one run = one seeded script: a lease table of 1..24 entries (Lease, Lease2, OfflineSignature, LeaseSet2, EncryptedLeaseSet, MetaLeaseSet + entries - one in three of these with an offline block that has its own expiry -, LeaseSets of 1..16 leases, Date conversions, RouterInfo / RouterAddress dates; parsed from reference bytes and built by constructors) evaluated at 2..12 boots, each a fresh synctest bubble slept to a scripted absolute instant (relative to an entry's exact expiry, at the 2038/2106 edges, or uniform in 2000..2262; consecutive boots may go backwards). A run is non-trivial if at least one boot happened; distinct = distinct run fingerprints (SHA-256 over every (entry, boot) observation).",
+		Assumptions:  []string{"testing/synctest's fake clock is the only clock the library reads (inventory in DESIGN.md §1)", "the bubble clock covers 2000-01-01 .. 2262-04-01 only: expiries before 2000-01-02 are seen from the expired side only, millisecond dates past 2262 from the not-expired side only", "inside the ±24 h band around an expiry IsExpired is not judged (the property promises nothing there)", "a structure with an offline block: 'expired a day ago' is judged on the structure's own expiry whatever the block says; 'not expired a day ahead' only when the block's expiry is a day ahead too (an implementation may let the earlier deadline count)"},
 		Components:   comps(map[string]string{"clock": "simulated: testing/synctest bubble, one per boot, time zone per boot via time.Local"}),
 		TimeoutQuick: 5 * time.Minute, TimeoutThoro: 150 * time.Minute},
 }
